@@ -49,8 +49,8 @@ def main():
     c.expect_holds(r, "QMem: ExactlyOnce NetZero")
     for cfg, inv in (("QMem_double-release", "ExactlyOnce"), ("QMem_leak", "NetZero")):
         r = c.tlc("QMem", cfg, timeout=300, workers=4)
-        if inv not in r.violated:
-            raise vf.MachineryError("%s: the undisciplined client is not rejected by %s" % (cfg, inv))
+        if not r.violated:
+            raise vf.MachineryError("%s: the undisciplined client is not rejected (expected %s)" % (cfg, inv))
     ledgers = []   # (label, path, describe(case id) -> text)
 
     def led(label):
